@@ -18,7 +18,7 @@ import z3
 
 from ..engine import Engine, Raised, is_raised
 from ..source import Module
-from ..values import BOOL, INT, NONE, NORMAL, STR, U, Cls, DictObj, Exc, Fn, Obj, Opaque, Outcome, Ref, State, Tup, Unsupported, Z
+from ..values import BOOL, INT, NONE, NORMAL, STR, U, Cls, DictObj, Exc, Fn, ListObj, Obj, Opaque, Outcome, Ref, State, Tup, Unsupported, Z
 
 NAME = "make_fn"
 REL = "jaxtyping/_decorator.py"
@@ -254,6 +254,116 @@ def build(repo=None):
     obligations.extend(st.obl)
     obligations.append({"clause": "canary:naming-invariant-satisfiable", "kind": "canary", "pc": list(inv_pc) + [generated[z3.StringVal("T0")]], "goal": z3.BoolVal(False), "path": [], "meta": {}})
 
+    # ================================================================== classification loop: every parameter goes to the list of its kind
+    KINDS = ["POSITIONAL_ONLY", "POSITIONAL_OR_KEYWORD", "VAR_POSITIONAL", "KEYWORD_ONLY", "VAR_KEYWORD"]
+    cls_loops = [x for x in mk.body if isinstance(x, ast.For) and "parameters.values()" in ast.unparse(x.iter)]
+    if len(cls_loops) != 1:
+        raise Unsupported("_make_fn_with_signature: classification loop not found")
+    cloop = cls_loops[0]
+    list_inits = [sx.targets[0].id for sx in mk.body[: mk.body.index(cloop)] if isinstance(sx, ast.Assign) and isinstance(sx.value, ast.List) and not sx.value.elts and isinstance(sx.targets[0], ast.Name)]
+    eng = Engine(mod)
+    kind_consts = {k: Opaque(f"Parameter.{k}", z3.Const(f"ParamKind_{k}", U)) for k in KINDS}
+    eng.globals["inspect"] = Opaque("module:inspect", attrs={"Parameter": Opaque("inspect.Parameter", attrs=kind_consts)})
+    the_kind = z3.Const("p_kind", U)
+    # enum members compare by identity
+    eng.method_models["__eq__"] = lambda e, s, a, b: (a.t == b.t) if isinstance(a, Opaque) and isinstance(b, Opaque) and ("kind" in a.tag or "Parameter." in a.tag) else None
+    st = State()
+    refs = {nm: st.alloc(ListObj([], ("grp", z3.Bool(f"{nm}_nonempty"), z3.Const(f"{nm}_id", U)), nm)) for nm in list_inits}
+    lst0 = {nm: st.get(r) for nm, r in refs.items()}
+    pparam = Opaque("p", attrs={"kind": Opaque("p.kind", the_kind)})
+    st.env = dict(refs)
+    st.env[cloop.target.id] = pparam
+    st.pc = [z3.Distinct(*[c.t for c in kind_consts.values()]), z3.Or(*[the_kind == c.t for c in kind_consts.values()])]
+    want_list = dict(zip(KINDS, list_inits)) if len(list_inits) == 5 else None
+    obligations.append({"clause": "make_fn:five-group-lists(pos-only, pos-or-kw, *args, kw-only, **kwargs)-are-initialised-empty", "pc": [], "goal": z3.BoolVal(want_list is not None), "path": [], "meta": {}})
+    if want_list is not None:
+        for s1, o in eng.run(cloop.body, st):
+            paths += 1
+            grown = [nm for nm, r in refs.items() if s1.get(r) is not lst0[nm]]
+            ok_one = o.kind in ("normal", "continue") and len(grown) == 1 and s1.get(refs[grown[0]]).items == [pparam]
+            eng.oblige(s1, "make_fn:each-parameter-is-appended-to-exactly-one-group", z3.BoolVal(ok_one))
+            if ok_one:
+                kname = [k for k, v in want_list.items() if v == grown[0]][0]
+                eng.oblige(s1, "make_fn:the-group-is-the-one-of-the-parameter's-kind", the_kind == kind_consts[kname].t)
+        obligations.extend(st.obl)
+
+    # ================================================================== argument pieces are emitted in grammar order
+    # region: from `argstr_pieces = []` to the statement that joins them
+    try:
+        i0 = next(i for i, sx in enumerate(mk.body) if isinstance(sx, ast.Assign) and getattr(sx.targets[0], "id", None) == "argstr_pieces")
+        i1 = next(i for i, sx in enumerate(mk.body) if isinstance(sx, ast.Assign) and "join(argstr_pieces)" in ast.unparse(sx.value))
+    except StopIteration:
+        raise Unsupported("_make_fn_with_signature: argstr_pieces region not found")
+    region = mk.body[i0 + 1 : i1]
+    SEQU, SEQS2 = z3.SeqSort(U), z3.SeqSort(STR)
+    Piece = z3.Function("argpiece", U, STR)
+    MapPiece = z3.Function("map_argpiece", SEQU, SEQS2)
+    eng = Engine(mod)
+    eng.seq_elem["seq:u"] = "u"
+    groups = {nm: z3.Const(f"group_{nm}", SEQU) for nm in list_inits} if want_list is not None else {}
+    st = State()
+    pieces_ref = st.alloc(Obj("seqlist", {"seq": Z("seq:str", z3.Empty(SEQS2))}, tag="argstr_pieces"))
+
+    def m_append(e, s, recv, a, kw, nd):
+        if isinstance(recv, Ref) and isinstance(s.get(recv), Obj) and s.get(recv).cls == "seqlist":
+            x = a[0]
+            if not (isinstance(x, Z) and x.kind == "str"):
+                raise Unsupported("non-string argument piece")
+            s1 = s.clone()
+            cur = s1.get(recv).attrs["seq"].t
+            s1.put(recv, Obj("seqlist", {"seq": Z("seq:str", z3.Concat(cur, z3.Unit(x.t)))}, tag="argstr_pieces"))
+            return [(s1, NONE)]
+        return None
+
+    eng.method_models["append"] = m_append
+    eng.globals["_make_argpiece"] = Fn("_make_argpiece", model=lambda e, s, a, kw, nd: [(s, Z("str", Piece(e.as_u(s, a[0]))))])
+
+    def unpack_hook(e, s, elts, v):
+        if isinstance(v, Z) and v.kind == "seq:u" and len(elts) == 1 and isinstance(elts[0], ast.Name):
+            s1 = s.fork(z3.Length(v.t) == 1)
+            s1.env[elts[0].id] = Opaque("only-element", v.t[0])
+            return [(s1, NORMAL)]
+        return None
+
+    eng.method_models["__unpack__"] = unpack_hook
+
+    def group_loop(e, node, s0):
+        # `for p in <group>: argstr_pieces.append(_make_argpiece(p, ...))` summarised as pieces ++= map(argpiece, group)
+        body_ok = (len(node.body) == 1 and isinstance(node.body[0], ast.Expr) and isinstance(node.body[0].value, ast.Call) and ast.unparse(node.body[0].value.func) == "argstr_pieces.append"
+                   and isinstance(node.body[0].value.args[0], ast.Call) and getattr(node.body[0].value.args[0].func, "id", "") == "_make_argpiece" and ast.unparse(node.body[0].value.args[0].args[0]) == node.target.id)
+        it = s0.env.get(getattr(node.iter, "id", ""))
+        if not (body_ok and isinstance(it, Z) and it.kind == "seq:u"):
+            raise Unsupported("argument-piece loop is not `for p in group: argstr_pieces.append(_make_argpiece(p, ...))`")
+        s1 = s0.clone()
+        cur = s1.get(pieces_ref).attrs["seq"].t
+        s1.put(pieces_ref, Obj("seqlist", {"seq": Z("seq:str", z3.Concat(cur, MapPiece(it.t)))}, tag="argstr_pieces"))
+        return [(s1, NORMAL)]
+
+    for lp in [x for sx in region for x in ast.walk(sx) if isinstance(x, ast.For)]:
+        eng.loop_specs[id(lp)] = group_loop
+    if want_list is not None:
+        st.env = {nm: Z("seq:u", g) for nm, g in groups.items()}
+        st.env["argstr_pieces"] = pieces_ref
+        st.env["name_to_annotation"], st.env["name_to_default"] = Opaque("name_to_annotation"), Opaque("name_to_default")
+        g = {k: groups[v] for k, v in want_list.items()}
+        L = z3.Length
+        # signature invariants of inspect: at most one *args and one **kwargs parameter
+        st.pc = [L(g["VAR_POSITIONAL"]) <= 1, L(g["VAR_KEYWORD"]) <= 1]
+        E = z3.Empty(SEQS2)
+        star = z3.If(L(g["VAR_POSITIONAL"]) == 1, z3.Unit(z3.Concat(z3.StringVal("*"), Piece(g["VAR_POSITIONAL"][0]))), z3.If(L(g["KEYWORD_ONLY"]) > 0, z3.Unit(z3.StringVal("*")), E))
+        want = z3.Concat(MapPiece(g["POSITIONAL_ONLY"]), z3.If(L(g["POSITIONAL_ONLY"]) > 0, z3.Unit(z3.StringVal("/")), E), z3.If(L(g["POSITIONAL_OR_KEYWORD"]) > 0, MapPiece(g["POSITIONAL_OR_KEYWORD"]), E), star,
+                         z3.If(L(g["KEYWORD_ONLY"]) > 0, MapPiece(g["KEYWORD_ONLY"]), E), z3.If(L(g["VAR_KEYWORD"]) == 1, z3.Unit(z3.Concat(z3.StringVal("**"), Piece(g["VAR_KEYWORD"][0]))), E))
+        map_empty = [z3.Implies(L(x) == 0, MapPiece(x) == E) for x in g.values()]
+        st.pc += map_empty
+        for s1, o in eng.run(region, st):
+            paths += 1
+            if o.kind != "normal":
+                eng.oblige(s1, f"make_fn:pieces-region-completes[{o.kind}]", z3.BoolVal(False))
+                continue
+            got = s1.get(pieces_ref).attrs["seq"].t
+            eng.oblige(s1, "make_fn:pieces-are-emitted-in-grammar-order(pos-only.. '/' pos-or-kw.. ('*args' | '*') kw-only.. '**kwargs')", got == want)
+        obligations.extend(st.obl)
+
     # ================================================================== _make_argpiece
     ap = mod.func("_make_argpiece")
     functions.append({"qualname": "jaxtyping._decorator._make_argpiece", "sha256_16": mod.sha(ap), "lines": [ap.lineno, ap.end_lineno]})
@@ -288,5 +398,5 @@ def build(repo=None):
                 "str(int) / str.isidentifier are uninterpreted; assumed: prefix.isidentifier() and k >= 0 imply (prefix + str(k)).isidentifier()",
                 "termination of _gensym is not proved (needs finiteness of `names`); the index strictly increases",
                 "exec(def-source, scope) defines a function with exactly the signature written in the source (T3; bounded stand-in b07)",
-                "the order of the argument pieces (pos-only / pos-or-kw / *args / kw-only / **kwargs) is checked only by the bounded stand-in b07",
+                "the per-group append loops are summarised by their pattern (pieces ++= map(argpiece, group)); the pattern itself is checked on the AST",
             ]}
